@@ -53,6 +53,7 @@ fn finish_scenario(out: &mut Out, name: &str, b: &MemBackend, expect_close: bool
         out.oracle_fail(format!("backend-contract|close-count|{name}: close() called {closes} times, expected exactly once"));
     }
     out.count("scenarios");
+    out.count("evaluations");
 }
 
 fn new_backend(image: &[u8]) -> MemBackend {
